@@ -18,6 +18,10 @@ macro_rules! cfg_huge {
 }
 
 fn main() {
+    vengine::on_worker_stack(real_main);
+}
+
+fn real_main() {
     let mut run = Run::from_args("C04", "c04");
     vcore::core_configs!(cfg, run);
     cfg_huge!(run, d8, 1024, BigRef);
